@@ -4,6 +4,7 @@ Pure Python, no execution of okane code: CFG reachability / must-pass queries,
 flow-insensitive operand provenance, switch ("guard") atoms in force at a site,
 bounded path enumeration, call graph with function-value references.
 """
+import os
 import re
 from collections import defaultdict, namedtuple
 
@@ -434,9 +435,13 @@ class Program:
         self._children = None
 
     @classmethod
-    def load(cls, repo=None, variant="dev"):
+    def load(cls, repo=None, variant="dev", normalize=True):
         raw = _facts.load_raw(repo or _facts.REPO, variant)
-        return cls(raw)
+        P = cls(raw)
+        if normalize and not os.environ.get("VERIF_NO_NORMALIZE"):
+            from . import inline
+            inline.normalize_program(P)
+        return P
 
     def body(self, key):
         b = self.bodies.get(key)
@@ -460,6 +465,12 @@ class Program:
             for b in self.bodies.values():
                 if b.parent:
                     ch[b.parent].append(b)
+            # closures of helpers that were inlined into a known function belong to that function's view
+            for b in list(self.bodies.values()):
+                for c in getattr(b, "inlined_callees", []) or []:
+                    for x in ch.get(c, []):
+                        if x not in ch[b.key]:
+                            ch[b.key].append(x)
             self._children = ch
         out = []
         stack = [key]
@@ -779,6 +790,7 @@ def describe_switch(body, bb):
     subject = None
     variants = None
     seen = 0
+    pos = len(body.blocks[bb]["stmts"])
     while True:
         seen += 1
         l = _operand_local(o)
@@ -786,6 +798,17 @@ def describe_switch(body, bb):
             kind, subject = ("bool" if t["dty"] == "bool" else "int"), frozenset(prov(body, o))
             break
         d = single_def(body, l)
+        if d is None and pos is not None:
+            # several definitions: the one in this very block (after jump threading / tail duplication) decides
+            sts = body.blocks[bb]["stmts"]
+            for i in range(pos - 1, -1, -1):
+                st = sts[i]
+                if st.get("k") == "assign" and not st["place"]["p"] and st["place"]["l"] == l:
+                    d = ("assign", bb, i, st["place"], st["rv"])
+                    pos = i
+                    break
+        elif d is not None:
+            pos = None if d[1] != bb else (d[2] if d[0] == "assign" else None)
         if d is None:
             kind, subject = ("bool" if t["dty"] == "bool" else "int"), frozenset(prov(body, o))
             break
